@@ -630,6 +630,29 @@ func (c *Ctx) ruleDispatch(tb *ir.TB) {
 					}
 				}
 			}
+			if needCount {
+				// the same count written as a call: n := countSet(x.A != nil, x.B != nil, ...)
+				Calls(fn, func(cc ssa.CallInstruction) {
+					call, ok := cc.(*ssa.Call)
+					if !ok || !isBoolCounter(ir.Callee(call).Static) || len(call.Call.Args) != 1 {
+						return
+					}
+					lt := tb.Of(call.Call.Args[0], nil)
+					if lt.Op != "list" {
+						return
+					}
+					for _, e := range lt.Args {
+						if e.Op != "bin:!=" || len(e.Args) != 2 || e.Args[1].Op != "nil" {
+							continue
+						}
+						t := e.Args[0]
+						if !strings.HasPrefix(t.Op, "field:") || len(t.Args) != 1 || strings.HasPrefix(t.Args[0].Op, "field:") {
+							continue
+						}
+						out[strings.TrimPrefix(t.Op, "field:")] = true
+					}
+				})
+			}
 			return out
 		}
 		ff := fields(fac, false)
@@ -679,7 +702,13 @@ func (c *Ctx) ruleDispatch(tb *ir.TB) {
 		for _, b := range val.Blocks {
 			for si := range b.Succs {
 				fs := ir.EdgeFacts(b, si)
-				isCounter := func(v ssa.Value) bool { _, ok := v.(*ssa.Phi); return ok && isIntType(v.Type()) }
+				isCounter := func(v ssa.Value) bool {
+					if call, ok := v.(*ssa.Call); ok {
+						return isBoolCounter(ir.Callee(call).Static)
+					}
+					_, ok := v.(*ssa.Phi)
+					return ok && isIntType(v.Type())
+				}
 				rej := func() bool {
 					for _, rv := range returnsFrom([]ir.Point{ir.EdgeStart(b, si)}, ir.Search{StopEdge: func(bb *ssa.BasicBlock, s2 int) bool { return bb.Succs[s2].Dominates(bb) }}) {
 						facts := factsAt(rv.ret.Block(), rv.via)
@@ -708,6 +737,98 @@ func (c *Ctx) ruleDispatch(tb *ir.TB) {
 	c.R.Require("R-dispatch", 6)
 }
 
+// isBoolCounter: f(flags ...bool) int returns the number of true flags: its only int update is a +1
+// taken on an edge where an element of the parameter is true, the count starts at 0 and is what is returned.
+func isBoolCounter(f *ssa.Function) bool {
+	if f == nil || len(f.Blocks) == 0 || len(f.Params) != 1 || f.Signature.Results().Len() != 1 || !isIntType(f.Signature.Results().At(0).Type()) {
+		return false
+	}
+	sl, ok := f.Params[0].Type().Underlying().(*types.Slice)
+	if !ok {
+		return false
+	}
+	if b, ok := sl.Elem().Underlying().(*types.Basic); !ok || b.Kind() != types.Bool {
+		return false
+	}
+	fromParam := func(v ssa.Value) bool {
+		v = ir.Resolve(v)
+		switch x := v.(type) {
+		case *ssa.UnOp:
+			if ia, ok := x.X.(*ssa.IndexAddr); ok {
+				return ir.Root(ia.X) == ssa.Value(f.Params[0])
+			}
+		case *ssa.Extract:
+			if nx, ok := x.Tuple.(*ssa.Next); ok {
+				if rg, ok := nx.Iter.(*ssa.Range); ok {
+					return ir.Root(rg.X) == ssa.Value(f.Params[0])
+				}
+			}
+		}
+		return false
+	}
+	adds := 0
+	var addPhi ssa.Value
+	for _, b := range f.Blocks {
+		for _, ins := range b.Instrs {
+			switch x := ins.(type) {
+			case *ssa.BinOp:
+				if !isIntType(x.Type()) || x.Op == token.LSS || x.Op == token.GTR || x.Op == token.LEQ || x.Op == token.GEQ || x.Op == token.EQL || x.Op == token.NEQ {
+					continue
+				}
+				k, isConst := ir.ConstInt(x.Y)
+				phi, isPhi := ir.Resolve(x.X).(*ssa.Phi)
+				if x.Op != token.ADD || !isConst || k != 1 || !isPhi {
+					return false
+				}
+				if phi.Comment == "rangeindex" || phi.Comment == "rangeint.iter" {
+					continue // the loop index
+				}
+				// guarded by "element is true"
+				guarded := false
+				for _, fct := range ir.BlockFacts(b) {
+					if fct.Bool != nil && fct.Truth && fromParam(fct.Bool) {
+						guarded = true
+					}
+				}
+				if !guarded {
+					isIndex := false
+					for _, ref := range *phi.Referrers() {
+						if ia, ok := ref.(*ssa.IndexAddr); ok && ia.Index == ssa.Value(phi) {
+							isIndex = true
+						}
+					}
+					if isIndex {
+						continue // the index of a three-clause loop
+					}
+					return false
+				}
+				adds++
+				addPhi = phi
+			case *ssa.Call, *ssa.Store, *ssa.MapUpdate, *ssa.Go, *ssa.Defer:
+				if c, ok := x.(*ssa.Call); ok && ir.Callee(c).Builtin == "len" {
+					continue
+				}
+				return false
+			}
+		}
+	}
+	if adds != 1 {
+		return false
+	}
+	for _, r := range ir.Returns(f) {
+		if ir.Resolve(r.Results[0]) != addPhi {
+			return false
+		}
+	}
+	// the count starts at zero
+	for _, e := range addPhi.(*ssa.Phi).Edges {
+		if k, ok := ir.ConstInt(e); ok && k != 0 {
+			return false
+		}
+	}
+	return true
+}
+
 func (c *Ctx) ruleCycle(vtree map[*ssa.Function]bool, tb *ir.TB, rejects func(*ssa.Function, edge) bool) {
 	var tarjanCall *ssa.Call
 	var tfn *ssa.Function
@@ -726,11 +847,14 @@ func (c *Ctx) ruleCycle(vtree map[*ssa.Function]bool, tb *ir.TB, rejects func(*s
 	okRej := false
 	for _, b := range tfn.Blocks {
 		for si := range b.Succs {
-			if ir.HasFact(ir.EdgeFacts(b, si), token.GTR, func(x, y ssa.Value) bool {
-				k, ok := ir.ConstInt(y)
+			isSccLen := func(x ssa.Value) bool {
 				call, isLen := x.(*ssa.Call)
-				return ok && k == 1 && isLen && ir.Callee(call).Builtin == "len" && termHasCall(tb.Of(call.Call.Args[0], nil), "tarjan.Connections")
-			}) && rejects(tfn, edge{b, si}) {
+				return isLen && ir.Callee(call).Builtin == "len" && termHasCall(tb.Of(call.Call.Args[0], nil), "tarjan.Connections")
+			}
+			fs := ir.EdgeFacts(b, si)
+			if (ir.HasFact(fs, token.GTR, func(x, y ssa.Value) bool { k, ok := ir.ConstInt(y); return ok && k == 1 && isSccLen(x) }) ||
+				ir.HasFact(fs, token.GEQ, func(x, y ssa.Value) bool { k, ok := ir.ConstInt(y); return ok && k == 2 && isSccLen(x) }) ||
+				ir.HasFact(fs, token.NEQ, func(x, y ssa.Value) bool { k, ok := ir.ConstInt(y); return ok && k == 1 && isSccLen(x) })) && rejects(tfn, edge{b, si}) {
 				okRej = true
 			}
 		}
